@@ -38,6 +38,7 @@ class Ctx:
         self.plan = plan
         self.hub = rf.Hub(loop, plan)
         self.loop_excs: list[dict] = []
+        self.gc_reports: list[str] = []
         self.events: list = []
         self.violations: list[dict] = []
         self.probes: dict[str, int] = {}
@@ -99,7 +100,13 @@ def _handler(ctx: Ctx):
             "text": (str(e)[:300] if e is not None else ""),
         }
         ctx.loop_excs.append(ent)
-        ctx.ev("LOOPEXC", ent["sig"])
+        if "never retrieved" in ent["message"]:
+            # reported from Task/Future.__del__, i.e. whenever the garbage collector happens to run: *that* instant depends on the
+            # process's allocation history, not on the plan -- keep it out of the ordered event log (it is appended, sorted, at the end)
+            ent["t"] = None
+            ctx.gc_reports.append(ent["sig"])
+        else:
+            ctx.ev("LOOPEXC", ent["sig"])
 
     return h
 
@@ -148,6 +155,8 @@ def execute(plan_dict: dict) -> dict:
             import shutil
 
             shutil.rmtree(d, ignore_errors=True)
+    for sig in sorted(ctx.gc_reports):
+        ctx.events.append((-1.0, "LOOPEXC-GC", sig))
     dig = hashlib.sha256(repr(ctx.events).encode()).hexdigest()[:16]
     faults = dict(ctx.hub.fault_counts)
     if loop.stall_count:
